@@ -61,6 +61,20 @@ def gen_cases(sd, tr):
     for da in [(5,), (3, 4), (2, 3, 4)]:
         cases.append({'k': 'IN', 'ty': tys[len(cases) % 4], 'da': da, 'sa': g.next() % 10000, 'sb': g.next() % 10000})
         cases.append({'k': 'OU', 'ty': tys[len(cases) % 4], 'da': da, 'db': (2, 3), 'sa': g.next() % 10000, 'sb': g.next() % 10000})
+    # the vectorised branch of the general loop nest and the gemm re-routings at extents that are multiples of every vector width
+    # (the last index of the second operand is the contiguous, vectorised one), float and double
+    for (I, J) in [((1, 0), (1, 2)), ((0, 1), (2, 1, 3)), ((0, 1), (1, 2)), ((0,), (0, 1)), ((0, 1, 2), (2, 3)), ((0, 1), (2, 0, 3))]:
+        for last in (4, 8, 16):
+            for ty in ('float', 'double'):
+                labs = sorted(set(I + J)); ext = {l: g.choice([2, 3]) for l in labs}; ext[J[-1]] = last
+                cases.append({'k': 'E2', 'ty': ty, 'I': I, 'J': J, 'da': tuple(ext[l] for l in I), 'db': tuple(ext[l] for l in J), 'sa': g.next() % 10000, 'sb': g.next() % 10000})
+    # dyadic products of small vectors (hand-written kernels per size and ISA): outer() and the einsum form
+    for m in (2, 3, 4, 5):
+        for n in (2, 3, 4, 5):
+            for ty in ('float', 'double'):
+                if quick and (m + n + (ty == 'float')) % 2: continue
+                cases.append({'k': 'OU', 'ty': ty, 'da': (m,), 'db': (n,), 'sa': g.next() % 10000, 'sb': g.next() % 10000})
+                cases.append({'k': 'E2', 'ty': ty, 'I': (0,), 'J': (1,), 'da': (m,), 'db': (n,), 'sa': g.next() % 10000, 'sb': g.next() % 10000})
     for i, c in enumerate(cases): c['id'] = i
     return cases
 
